@@ -88,9 +88,19 @@ def kindOf (name : String) : String :=
   | some r => r.method
   | none => if name.startsWith "@" then "foamj-method" else "?"
 
-/-- one request line → `result<TAB>tags` -/
+def showLit : JMap.BIntLit → String
+  | .zero => "ZERO"
+  | .one => "ONE"
+  | .valueOf p => "valueOf:" ++ toString p
+  | .string d => "string:" ++ toString d
+
+/-- one request line → `result<TAB>tags`; `bintlit <v>` asks for the form `gj0BInt` emits for `v` -/
 def line (toks : List String) : String :=
   match toks with
+  | ["bintlit", v] =>
+    match v.toInt? with
+    | some x => showLit (JMap.bintLit x) ++ "\tkind=gj0BInt"
+    | none => "bad-op"
   | name :: rest =>
     match rest.mapM String.toInt? with
     | some args =>
